@@ -20,6 +20,46 @@ let archive_write_extra =
 let archive_header_extra =
   Npos Coq_xH
 
+(** val archive_min_protocol : coq_N **)
+
+let archive_min_protocol =
+  Npos (Coq_xO (Coq_xO Coq_xH))
+
+(** val archive_flag_gt : coq_N **)
+
+let archive_flag_gt =
+  N0
+
+(** val archive_send_gt : coq_N **)
+
+let archive_send_gt =
+  N0
+
+(** val archive_v3_protocol : coq_N **)
+
+let archive_v3_protocol =
+  Npos (Coq_xI Coq_xH)
+
+(** val archive_writer_needs_dir : coq_N **)
+
+let archive_writer_needs_dir =
+  Npos Coq_xH
+
+(** val archive_reader_file_nil : bool **)
+
+let archive_reader_file_nil =
+  true
+
+(** val archive_probe_guard_fires : bool **)
+
+let archive_probe_guard_fires =
+  true
+
+(** val archive_probe_nofile_compress : bool **)
+
+let archive_probe_nofile_compress =
+  true
+
 (** val buffer_line_newline : coq_N **)
 
 let buffer_line_newline =
@@ -34,6 +74,17 @@ let buffer_line_interrupt =
 
 let buffer_line_cr =
   Npos (Coq_xI (Coq_xO (Coq_xI Coq_xH)))
+
+(** val buffer_queue_capacity : coq_N **)
+
+let buffer_queue_capacity =
+  Npos (Coq_xO (Coq_xO (Coq_xO (Coq_xO (Coq_xI (Coq_xO (Coq_xO (Coq_xO
+    (Coq_xI (Coq_xI (Coq_xI (Coq_xO (Coq_xO Coq_xH)))))))))))))
+
+(** val buffer_add_blocks : bool **)
+
+let buffer_add_blocks =
+  true
 
 (** val det_min_len : coq_N **)
 
@@ -571,10 +622,22 @@ let guards_default_bufsize =
     (Coq_xO (Coq_xO (Coq_xO (Coq_xO (Coq_xI (Coq_xO
     Coq_xH)))))))))))))))))))))))
 
+(** val guards_init_buffer_size : coq_Z **)
+
+let guards_init_buffer_size =
+  Zpos (Coq_xO (Coq_xO (Coq_xO (Coq_xO (Coq_xO (Coq_xO (Coq_xO (Coq_xO
+    (Coq_xO (Coq_xO (Coq_xO (Coq_xI (Coq_xO Coq_xH)))))))))))))
+
 (** val guards_default_timeout : coq_Z **)
 
 let guards_default_timeout =
   Zpos (Coq_xO (Coq_xO (Coq_xI (Coq_xO Coq_xH))))
+
+(** val guards_v1_init_bufsize : coq_Z **)
+
+let guards_v1_init_bufsize =
+  Zpos (Coq_xO (Coq_xO (Coq_xO (Coq_xO (Coq_xO (Coq_xO (Coq_xO (Coq_xO
+    (Coq_xO (Coq_xO Coq_xH))))))))))
 
 (** val guards_data_min_bufsize : coq_Z **)
 
@@ -594,6 +657,29 @@ let guards_bufsize_clamp =
     (Coq_xO (Coq_xO (Coq_xO (Coq_xO (Coq_xO (Coq_xO (Coq_xO (Coq_xO (Coq_xO
     (Coq_xO (Coq_xO (Coq_xO (Coq_xO (Coq_xO (Coq_xO (Coq_xO (Coq_xO (Coq_xO
     (Coq_xO (Coq_xO (Coq_xO (Coq_xO Coq_xH))))))))))))))))))))))))))))))
+
+(** val guards_ack_fast_ms : coq_Z **)
+
+let guards_ack_fast_ms =
+  Zpos (Coq_xO (Coq_xO (Coq_xI (Coq_xO (Coq_xI (Coq_xI (Coq_xI (Coq_xI
+    Coq_xH))))))))
+
+(** val guards_ack_slow_ms : coq_Z **)
+
+let guards_ack_slow_ms =
+  Zpos (Coq_xO (Coq_xO (Coq_xO (Coq_xO (Coq_xI (Coq_xO (Coq_xI (Coq_xI
+    (Coq_xI (Coq_xI Coq_xH))))))))))
+
+(** val guards_grow_factor : coq_Z **)
+
+let guards_grow_factor =
+  Zpos (Coq_xO Coq_xH)
+
+(** val guards_min_chunk : coq_Z **)
+
+let guards_min_chunk =
+  Zpos (Coq_xO (Coq_xO (Coq_xO (Coq_xO (Coq_xO (Coq_xO (Coq_xO (Coq_xO
+    (Coq_xO (Coq_xO Coq_xH))))))))))
 
 (** val names_max_len : coq_N **)
 
@@ -771,6 +857,16 @@ let pause_gate_sleep_ms =
 let pause_reader_sleep_ms =
   Npos (Coq_xO (Coq_xO (Coq_xI (Coq_xO (Coq_xO (Coq_xI Coq_xH))))))
 
+(** val pause_final_ack_poll_ms : coq_N **)
+
+let pause_final_ack_poll_ms =
+  Npos (Coq_xO (Coq_xO (Coq_xO (Coq_xI (Coq_xO (Coq_xO (Coq_xI Coq_xH)))))))
+
+(** val pause_ack_window : coq_N **)
+
+let pause_ack_window =
+  Npos (Coq_xI (Coq_xO Coq_xH))
+
 (** val pause_protocol3 : coq_N **)
 
 let pause_protocol3 =
@@ -796,6 +892,11 @@ let pause_colon =
 let pause_timeout_unit_ms =
   Npos (Coq_xO (Coq_xO (Coq_xO (Coq_xI (Coq_xO (Coq_xI (Coq_xI (Coq_xI
     (Coq_xI Coq_xH)))))))))
+
+(** val pause_ignore_chunk_count : coq_N **)
+
+let pause_ignore_chunk_count =
+  Npos (Coq_xI (Coq_xI Coq_xH))
 
 (** val progress_ellipsis_reserve : coq_Z **)
 
@@ -922,6 +1023,21 @@ let progress_bar_empty_rune =
   Npos (Coq_xI (Coq_xO (Coq_xO (Coq_xO (Coq_xI (Coq_xO (Coq_xO (Coq_xI
     (Coq_xI (Coq_xO (Coq_xI (Coq_xO (Coq_xO Coq_xH)))))))))))))
 
+(** val progress_pane_ignored : coq_Z **)
+
+let progress_pane_ignored =
+  Z0
+
+(** val progress_show_cursor : coq_N list **)
+
+let progress_show_cursor =
+  (Npos (Coq_xI (Coq_xI (Coq_xO (Coq_xI Coq_xH))))) :: ((Npos (Coq_xI (Coq_xI
+    (Coq_xO (Coq_xI (Coq_xI (Coq_xO Coq_xH))))))) :: ((Npos (Coq_xI (Coq_xI
+    (Coq_xI (Coq_xI (Coq_xI Coq_xH)))))) :: ((Npos (Coq_xO (Coq_xI (Coq_xO
+    (Coq_xO (Coq_xI Coq_xH)))))) :: ((Npos (Coq_xI (Coq_xO (Coq_xI (Coq_xO
+    (Coq_xI Coq_xH)))))) :: ((Npos (Coq_xO (Coq_xO (Coq_xO (Coq_xI (Coq_xO
+    (Coq_xI Coq_xH))))))) :: [])))))
+
 (** val progress_bar_min_length : coq_Z **)
 
 let progress_bar_min_length =
@@ -1018,6 +1134,68 @@ let progress_ladder =
     [])) :: (((N0, (Z0, Z0)), ([], [])) :: ((((Npos (Coq_xI Coq_xH)), (Z0,
     Z0)), ([], [])) :: []))))))))))))))))
 
+(** val c02_succ_waits_saver : bool **)
+
+let c02_succ_waits_saver =
+  true
+
+(** val c02_resume_rest_guard : coq_N **)
+
+let c02_resume_rest_guard =
+  Npos (Coq_xO Coq_xH)
+
+(** val c02_resume_truncates : coq_N **)
+
+let c02_resume_truncates =
+  Npos Coq_xH
+
+(** val c02_resume_size_guard : coq_N **)
+
+let c02_resume_size_guard =
+  Npos Coq_xH
+
+(** val pump_transfer_buf_size : coq_N **)
+
+let pump_transfer_buf_size =
+  Npos (Coq_xO (Coq_xO (Coq_xO (Coq_xO (Coq_xO (Coq_xO (Coq_xO (Coq_xO
+    (Coq_xO (Coq_xO (Coq_xO (Coq_xO (Coq_xO (Coq_xO (Coq_xO
+    Coq_xH)))))))))))))))
+
+(** val pump_filter_buf_size : coq_N **)
+
+let pump_filter_buf_size =
+  Npos (Coq_xO (Coq_xO (Coq_xO (Coq_xO (Coq_xO (Coq_xO (Coq_xO (Coq_xO
+    (Coq_xO (Coq_xO (Coq_xO (Coq_xO (Coq_xO (Coq_xO (Coq_xO
+    Coq_xH)))))))))))))))
+
+(** val pump_relay_stdin_buf_size : coq_N **)
+
+let pump_relay_stdin_buf_size =
+  Npos (Coq_xO (Coq_xO (Coq_xO (Coq_xO (Coq_xO (Coq_xO (Coq_xO (Coq_xO
+    (Coq_xO (Coq_xO (Coq_xO (Coq_xO (Coq_xO (Coq_xO (Coq_xO
+    Coq_xH)))))))))))))))
+
+(** val pump_relay_stdout_buf_size : coq_N **)
+
+let pump_relay_stdout_buf_size =
+  Npos (Coq_xO (Coq_xO (Coq_xO (Coq_xO (Coq_xO (Coq_xO (Coq_xO (Coq_xO
+    (Coq_xO (Coq_xO (Coq_xO (Coq_xO (Coq_xO (Coq_xO (Coq_xO
+    Coq_xH)))))))))))))))
+
+(** val pump_tunnel_in_buf_size : coq_N **)
+
+let pump_tunnel_in_buf_size =
+  Npos (Coq_xO (Coq_xO (Coq_xO (Coq_xO (Coq_xO (Coq_xO (Coq_xO (Coq_xO
+    (Coq_xO (Coq_xO (Coq_xO (Coq_xO (Coq_xO (Coq_xO (Coq_xO
+    Coq_xH)))))))))))))))
+
+(** val pump_tunnel_out_buf_size : coq_N **)
+
+let pump_tunnel_out_buf_size =
+  Npos (Coq_xO (Coq_xO (Coq_xO (Coq_xO (Coq_xO (Coq_xO (Coq_xO (Coq_xO
+    (Coq_xO (Coq_xO (Coq_xO (Coq_xO (Coq_xO (Coq_xO (Coq_xO
+    Coq_xH)))))))))))))))
+
 (** val relay_standby : coq_N **)
 
 let relay_standby =
@@ -1032,6 +1210,16 @@ let relay_handshaking =
 
 let relay_transferring =
   Npos (Coq_xO Coq_xH)
+
+(** val relay_reset_guarded : bool **)
+
+let relay_reset_guarded =
+  true
+
+(** val relay_handshaking_stored_by_reader : bool **)
+
+let relay_handshaking_stored_by_reader =
+  true
 
 (** val relayneg_protocol_version : coq_Z **)
 
@@ -1238,10 +1426,40 @@ let relayneg_reset_clears_tunnel_flag =
 let relayneg_handshake_sets_tunnel_flag =
   true
 
+(** val relayneg_to_client_nl : coq_N list **)
+
+let relayneg_to_client_nl =
+  (Npos (Coq_xO (Coq_xI (Coq_xO Coq_xH)))) :: []
+
+(** val relayneg_to_client_win_nl : coq_N list **)
+
+let relayneg_to_client_win_nl =
+  (Npos (Coq_xI (Coq_xO (Coq_xO (Coq_xO (Coq_xO Coq_xH)))))) :: ((Npos
+    (Coq_xO (Coq_xI (Coq_xO Coq_xH)))) :: [])
+
+(** val relayneg_to_server_nl : coq_N list **)
+
+let relayneg_to_server_nl =
+  (Npos (Coq_xO (Coq_xI (Coq_xO Coq_xH)))) :: []
+
+(** val relayneg_to_server_win_nl : coq_N list **)
+
+let relayneg_to_server_win_nl =
+  (Npos (Coq_xI (Coq_xO (Coq_xO (Coq_xO (Coq_xO Coq_xH)))))) :: ((Npos
+    (Coq_xO (Coq_xI (Coq_xO Coq_xH)))) :: [])
+
 (** val relayneg_escape_table_has_marshaler : bool **)
 
 let relayneg_escape_table_has_marshaler =
   false
+
+(** val prefix_hash_step : coq_N **)
+
+let prefix_hash_step =
+  Npos (Coq_xO (Coq_xO (Coq_xO (Coq_xO (Coq_xO (Coq_xO (Coq_xO (Coq_xO
+    (Coq_xO (Coq_xO (Coq_xO (Coq_xO (Coq_xO (Coq_xO (Coq_xO (Coq_xO (Coq_xO
+    (Coq_xO (Coq_xO (Coq_xO (Coq_xO (Coq_xI (Coq_xO
+    Coq_xH)))))))))))))))))))))))
 
 (** val resume_min_protocol : coq_N **)
 
@@ -1289,6 +1507,21 @@ let tr_proto_json_names =
 
 let tr_proto_pipeline =
   Npos (Coq_xO Coq_xH)
+
+(** val tr_proto_archive : coq_N **)
+
+let tr_proto_archive =
+  Npos (Coq_xO (Coq_xO Coq_xH))
+
+(** val tr_proto_resume_nosize : coq_N **)
+
+let tr_proto_resume_nosize =
+  Npos (Coq_xO (Coq_xO Coq_xH))
+
+(** val tr_resume_rest_check : bool **)
+
+let tr_resume_rest_check =
+  true
 
 (** val tunnel_uid_cut_if_longer : coq_N **)
 
@@ -1474,6 +1707,11 @@ let data_v2_base64_prefix =
     (Coq_xO (Coq_xO (Coq_xI (Coq_xO (Coq_xI (Coq_xO Coq_xH))))))) :: ((Npos
     (Coq_xI (Coq_xO (Coq_xO (Coq_xO (Coq_xO (Coq_xO Coq_xH))))))) :: ((Npos
     (Coq_xO (Coq_xI (Coq_xO (Coq_xI (Coq_xI Coq_xH)))))) :: [])))))
+
+(** val data_v2_piece_terminator : coq_N list option **)
+
+let data_v2_piece_terminator =
+  None
 
 (** val data_v1_binary_format : coq_N list **)
 
